@@ -118,6 +118,14 @@ def print_axioms(pid: str, modules, theorems, timeout=1800):
     return res, out
 
 
+def leanchecker(modules, timeout=3000):
+    """Thorough tier: re-check the compiled .olean files of the property's theorem modules (and everything they
+    import from this project) with the toolchain's independent checker."""
+    with Lock():
+        p = subprocess.run(["lake", "env", "leanchecker", *modules], cwd=LEAN_DIR, capture_output=True, text=True, timeout=timeout)
+    return p.returncode == 0, (p.stdout + p.stderr)[-1500:]
+
+
 def audit(ctx, modules, theorems):
     """Build, grep, #print axioms.  Returns (ok, details dict) and fills ctx.coverage."""
     ok, log, dt = lake_build()
@@ -135,4 +143,10 @@ def audit(ctx, modules, theorems):
     details["theorems"] = {t: axioms.get(t) for t in theorems}
     details["not_discharged"] = bad
     good = ok and not hits and not bad
+    if good and ctx.tier == "thorough" and modules:
+        lc_ok, lc_out = leanchecker(modules)
+        details["leanchecker_ok"] = lc_ok
+        if not lc_ok:
+            details["leanchecker_tail"] = lc_out
+            good = False
     return good, details
